@@ -300,7 +300,31 @@ func runC03(r *R) {
 						hasClose = true
 					}
 				}
-				r.Check(hasGet && hasRF && hasClose, "C03-R4", gofn, "b.err = join(Get, ReadFull, Close)", st.Pos(), "no error dropped", "an error is dropped before caching the block (get="+boolS(hasGet)+" readfull="+boolS(hasRF)+" close="+boolS(hasClose)+"): Close() carries the checksum verdict when the body is not read to EOF")
+				// Close()'s verdict is adopted unconditionally whenever ReadFull succeeded: an edge that carries ReadFull's own
+				// error into the stored value must be guarded by that error being non-nil
+				for _, rf := range CallsIn(gofn, "io.ReadFull") {
+					seen := map[ssa.Value]bool{}
+					var chk func(v ssa.Value)
+					chk = func(v ssa.Value) {
+						p, isP := Strip(v).(*ssa.Phi)
+						if !isP || seen[p] {
+							return
+						}
+						seen[p] = true
+						for i, e := range p.Edges {
+							if IsResultOfCall(Strip(e), rf.Value(), 1) {
+								g := EdgeGuarded(gofn, rf.(ssa.Instruction), p.Block().Preds[i], p.Block(), NeqC("ReadFull err != nil", ResultVP(rf.Value(), 1), NilV))
+								if !g {
+									hasClose = false
+								}
+							} else {
+								chk(e)
+							}
+						}
+					}
+					chk(st.Val)
+				}
+				r.Check(hasGet && hasRF && hasClose, "C03-R4", gofn, "b.err = join(Get, ReadFull, Close)", st.Pos(), "no error dropped; Close's error adopted whenever ReadFull's is nil", "an error is dropped before caching the block (get="+boolS(hasGet)+" readfull="+boolS(hasRF)+" close="+boolS(hasClose)+"): Close() carries the checksum verdict when the body is not read to EOF")
 			}
 			// ReadFull reads from the verified reader into the buffer that is cached
 			for _, rf := range CallsIn(gofn, "io.ReadFull") {
